@@ -205,6 +205,43 @@ func runVia(f []string) (o core.Outcome, handled bool) {
 		o := core.Outcome{Impl: got}
 		agree(&o, door+"-pathre", direct, got, fmt.Sprintf("path_regexp %s %q, path %q", f[1], lit, p))
 		return o, true
+	case f[0] == "json-not" && len(f) == 6:
+		l, e1 := parseList(f[1])
+		ps, e2 := parseList(f[2])
+		h, e3 := core.UnHex(f[3])
+		p, e4 := core.UnHex(f[4])
+		e, e5 := core.UnHex(f[5])
+		if e1 != nil || e2 != nil || e3 != nil || e4 != nil || e5 != nil {
+			return bad, true
+		}
+		dom := inDomainHost(l, h) && inDomainPath(ps, p, e)
+		u := &url.URL{Path: p, RawPath: e}
+		if u.EscapedPath() != e {
+			o := core.Outcome{Impl: "bad-op", Tags: []string{"trivial"}}
+			if !dom {
+				o.Impl = "ood"
+			}
+			return o, true
+		}
+		// direct: not(host OR path) from the hand-built matchers
+		direct := implHost(l, h)
+		if direct == "m:0" {
+			direct = implPathURL(ps, u)
+		}
+		switch direct {
+		case "m:0":
+			direct = "m:1"
+		case "m:1":
+			direct = "m:0"
+		}
+		inner, _ := json.Marshal([]caddy.ModuleMap{{"host": rawList(l)}, {"path": rawList(ps)}})
+		got := implJSONSet(caddy.ModuleMap{"not": inner}, h, u)
+		o := core.Outcome{Impl: got}
+		if !dom {
+			o.Impl = "ood"
+		}
+		agree(&o, "json-not", direct, got, fmt.Sprintf("not{host %s}{path %q}, Host %q, path %q (raw %q)", listField(l), ps, h, p, e))
+		return o, true
 	case f[0] == "json-set" && len(f) == 6:
 		l, e1 := parseList(f[1])
 		ps, e2 := parseList(f[2])
